@@ -163,7 +163,10 @@ impl Prop for C03 {
                         2 => Just(Clock::Add(0)),
                         8 => (1u64..3000).prop_map(Clock::Add),
                         3 => (3000u64..3_000_000).prop_map(Clock::Add),
+                        // whole seconds (no sub-second part) and whole milliseconds
+                        2 => select(vec![1_000_000_000u64, 2_000_000_000, 3_000_000_000, 1_000_000, 60_000_000_000]).prop_map(Clock::Add),
                         1 => (1u64..2000).prop_map(Clock::Sub),
+                        1 => select(vec![1_000_000_000u64, 1u64 << 40]).prop_map(Clock::Sub),
                     ]
                     .boxed()
                 } else {
